@@ -296,6 +296,8 @@ def discharge(ctx, s, scope=None):
                 return 'constant index %d into an array of length %d' % (c, n)
             if idx.tag == 'range' and _const_int(idx[1]) is not None and _const_int(idx[2]) is not None and _const_int(idx[1]) <= _const_int(idx[2]) <= n:
                 return 'constant range %d..%d within an array of length %d' % (_const_int(idx[1]), _const_int(idx[2]), n)
+            if idx.tag == 'range' and _const_int(idx[1]) is not None and idx[2].tag == 'const' and idx[2][1] is None and _const_int(idx[1]) <= n:
+                return 'constant range %d.. within an array of length %d' % (_const_int(idx[1]), n)
             if idx.tag == 'adt' and idx[1].endswith('RangeTo::RangeTo'):
                 end = idx[2][0][1]
                 mx = enum_max_discr(ctx, body, end)
@@ -318,6 +320,31 @@ def discharge(ctx, s, scope=None):
                 for sh, pr in ((a[2], a[3]), (a[3], a[2])):
                     if sh.startswith('checked_shl(1,') and pr.startswith('checked_mul(') and x in pr:
                         return 'dominating guard %s == %s makes the product, hence the argument, non-zero' % (sh, pr)
+    if kind == 'copy_len' and len(ops) >= 2:
+        # dst = array[c..] of a constant-length array, src = the byte representation of a fixed-width integer
+        dst, src = ops[0], ops[1]
+        d0 = dst
+        while d0.tag == 'mut':
+            d0 = d0[1]
+        n_dst = None
+        if d0.tag == 'elemat' and d0[2].tag == 'range':
+            base = d0[1]
+            while base.tag == 'mut':
+                base = base[1]
+            lo = _const_int(d0[2][1])
+            hi = _const_int(d0[2][2]) if not (d0[2][2].tag == 'const' and d0[2][2][1] is None) else None
+            if base.tag == 'array' and lo is not None:
+                n_dst = (hi if hi is not None else len(base.args)) - lo
+        width = None
+        s0 = src
+        while s0.tag == 'mut':
+            s0 = s0[1]
+        if s0.tag == 'call':
+            m = re.search(r'<impl (u|i)(8|16|32|64|128)>::to_(le|be|ne)_bytes', s0[1])
+            if m:
+                width = int(m.group(2)) // 8
+        if n_dst is not None and width is not None and n_dst == width:
+            return 'destination is %d bytes of a constant-length array and the source is a %d-byte integer encoding' % (n_dst, width)
     if kind == 'chunk0' and len(ops) >= 2:
         c = _const_int(ops[1])
         if c is not None and c >= 1:
